@@ -6,7 +6,17 @@ TRUSTED_BASE = [
     "extraction: ExtrOcamlBasic + ExtrOcamlZBigInt (Extract Inductive positive/Z/N => Big_int_Z.big_int; Extract Constant Pos.add/succ/pred/sub/mul/min/max/compare/compare_cont, N.add/succ/pred/sub/mul/min/max/div_eucl/div/modulo/compare/shiftl/shiftr, Z.add/succ/pred/sub/mul/opp/abs/min/max/compare/eqb/eq_dec/to_N/of_N/abs_N/div_eucl/div/modulo/shiftl/shiftr; ExtrOcamlBasic: bool/option/unit/list/prod/sumbool/sumor/comparison) + zarith 1.12; cross-checked per run against an ExtrOcamlBasic-only build and vm_compute on a sub-sample",
     "Go float32/float64 arithmetic on amd64 (no FMA) = Coq.Floats.SpecFloat SFadd/SFsub/SFmul/SFdiv/SFsqrt at (24,128)/(53,1024): exercised bit-for-bit by every case",
     "OCaml driver glue (ocaml/*/driver.ml), Go harness generators/encoders, this script",
+    "axioms: none declared by this development; Print Assumptions reports 'Closed under the global context' for every property theorem except the C18 theorems proved through Flocq 4.1.0 (validity closure of float operations, NaN-freedom, cosine range), which depend on the Coq standard library's real-number axioms ClassicalDedekindReals.sig_not_dec, ClassicalDedekindReals.sig_forall_dec, FunctionalExtensionality.functional_extensionality_dep and Classical_Prop.classic",
 ]
+
+# Axioms declared by the Coq standard library that Print Assumptions may report (only the C18 theorems
+# that go through Flocq's real-number semantics depend on them; everything else is closed).
+ALLOWED_STDLIB_AXIOMS = {
+    "ClassicalDedekindReals.sig_not_dec",
+    "ClassicalDedekindReals.sig_forall_dec",
+    "FunctionalExtensionality.functional_extensionality_dep",
+    "Classical_Prop.classic",
+}
 
 PROPS = {
     "C19": {
@@ -19,8 +29,8 @@ PROPS = {
 }
 
 PROPS["C18"] = {
-    "level_text": "Bit-exact Gallina transcription of distance.go (float32 via SpecFloat) with theorems for all vectors of any dimension, tied to the code by differential runs over magnitudes 1e-6..1e6, dims 1..512; the float-tolerance forms of the real-number laws (triangle, l2sq=l2^2, cosine=1-cos) are evaluated on the implementation's outputs as the search arm.",
-    "level_note": "Trusted: Coq kernel, extraction, harness, float32=SpecFloat(24,128), math.Sqrt correctly rounded. Float error-propagation bounds linking the real-number laws to float32 are not machine-checked (partial).",
+    "level_text": "Theorems for all vectors of any dimension about the bit-exact Gallina transcription of distance.go (float32 = SpecFloat, linked to IEEE-754 real semantics by a proved bridge to Flocq): every kind symmetric bit for bit; Euclidean kinds never below zero, never NaN on finite inputs, exactly +0 from a finite vector to itself; cosine distance in [0,2] or NaN; zero vectors rejected; batch = element-wise; the comparison key used by every sort is IEEE comparison. Tied to the code by differential runs over magnitudes 1e-6..1e6, dims 1..512; the float-tolerance forms of the remaining real-number laws (triangle, l2sq=l2^2, cosine=1-cos, scale invariance, unit norm after preprocessing) are evaluated on the implementation's outputs as the search arm.",
+    "level_note": "Trusted: Coq kernel, extraction, harness, float32=SpecFloat(24,128) on amd64, math.Sqrt correctly rounded, Flocq 4.1.0 with the stdlib real-number axioms (named in trusted_base). Float error-propagation bounds for the tolerance-form laws are not machine-checked (partial).",
     "correspondence": "distance.go ~ Model.Distance",
     "assumptions": ["amd64 without FMA contraction", "float32(math.Sqrt(float64(x))) = SFsqrt at precision 24"],
 }
